@@ -384,6 +384,103 @@ fn access_program(ti: usize, si: usize, mi: usize) -> Option<(String, String)>
 
 
 // ---------------------------------------------------------------------------------------------
+// Family 6: calls with two or three parameters of every kind and every form of argument
+
+pub const CALL_KINDS: [&str; 5] = ["value", "array view", "struct view", "pointer", "word"];
+pub const CALL_CONTEXTS: [&str; 5] = ["typed initialiser", "argument of print!", "operand of an addition", "argument of another call", "statement (callee prints)"];
+
+fn call_forms(kind: usize) -> Vec<(&'static str, i64)>
+{
+	match kind
+	{
+		0 => vec![("5", 5), ("k", 7), ("k + 1", 8), ("-k", -7), ("data[1]", 20), ("s.m", 100), ("twice(k)", 14)],
+		1 => vec![("data", 23), ("[k, 2, 3]", 5)],
+		2 => vec![("s", 100)],
+		3 => vec![("&x", 55)],
+		_ => vec![("w", 1000)],
+	}
+}
+
+/// One program per (signature, context) with every combination of argument forms.
+pub fn call_shape_program(sig: &[usize], context: usize) -> (String, String)
+{
+	let weights = [1i64, 3, 7];
+	let mut params = Vec::new();
+	let mut terms = Vec::new();
+	for (i, k) in sig.iter().enumerate()
+	{
+		let (p, t) = match k
+		{
+			0 => (format!("v{i}: i32"), format!("v{i}")),
+			1 => (format!("a{i}: []i32"), format!("(a{i}[1] + |a{i}| as i32)")),
+			2 => (format!("p{i}: S"), format!("p{i}.m")),
+			3 => (format!("q{i}: &i32"), format!("q{i}")),
+			_ => (format!("w{i}: W"), format!("w{i}.lo")),
+		};
+		params.push(p);
+		terms.push(format!("{t} * {}", weights[i]));
+	}
+	let sum = terms.join(" + ");
+	let mut text = String::from("struct S\n{\n\tm: i32,\n\tn: i32,\n}\nword64 W\n{\n\tlo: i32,\n\thi: i32,\n}\nfn twice(a: i32) -> i32\n{\n\treturn: a * 2\n}\n");
+	if context == 4
+	{
+		text.push_str(&format!("fn f({})\n{{\n\tvar r: i32 = {sum};\n\tprint!(r, \"\\n\");\n}}\n", params.join(", ")));
+	}
+	else
+	{
+		text.push_str(&format!("fn f({}) -> i32\n{{\n\treturn: {sum}\n}}\n", params.join(", ")));
+	}
+	text.push_str("fn run(k: i32)\n{\n\tvar data: [3]i32 = [10, 20, 30];\n\tvar s: S = S { m: 100, n: 200 };\n\tvar w: W = W { lo: 1000, hi: 2000 };\n\tvar x: i32 = 55;\n");
+	let mut expected = String::new();
+	let forms: Vec<Vec<(&str, i64)>> = sig.iter().map(|k| call_forms(*k)).collect();
+	let total: usize = forms.iter().map(|f| f.len()).product();
+	for code in 0..total
+	{
+		let mut c = code;
+		let mut args = Vec::new();
+		let mut value = 0i64;
+		for (i, f) in forms.iter().enumerate()
+		{
+			let (t, v) = f[c % f.len()];
+			c /= f.len();
+			args.push(t);
+			value += v * weights[i];
+		}
+		let call = format!("f({})", args.join(", "));
+		match context
+		{
+			0 =>
+			{
+				text.push_str(&format!("\tvar r{code}: i32 = {call};\n\tprint!(r{code}, \"\\n\");\n"));
+				expected.push_str(&format!("{value}\n"));
+			}
+			1 =>
+			{
+				text.push_str(&format!("\tprint!({call}, \"\\n\");\n"));
+				expected.push_str(&format!("{value}\n"));
+			}
+			2 =>
+			{
+				text.push_str(&format!("\tvar r{code}: i32 = {call} + 1;\n\tprint!(r{code}, \"\\n\");\n"));
+				expected.push_str(&format!("{}\n", value + 1));
+			}
+			3 =>
+			{
+				text.push_str(&format!("\tvar r{code}: i32 = twice({call});\n\tprint!(r{code}, \"\\n\");\n"));
+				expected.push_str(&format!("{}\n", value * 2));
+			}
+			_ =>
+			{
+				text.push_str(&format!("\t{call};\n"));
+				expected.push_str(&format!("{value}\n"));
+			}
+		}
+	}
+	text.push_str("}\nfn main() -> u8\n{\n\trun(7);\n\treturn: 6\n}\n");
+	(text, expected)
+}
+
+// ---------------------------------------------------------------------------------------------
 // Family 5: aggregate literals whose elements are constants, variables and expressions
 
 pub const LITERAL_POSITIONS: [&str; 6] = ["typed initialiser", "call argument", "structure member", "rows of a two-dimensional literal", "structure literal", "structure literal, members reversed"];
@@ -496,6 +593,24 @@ pub fn drive(d: &mut Driver)
 		jobs.push(json!({"family": "casts", "type": ti}));
 	}
 	jobs.push(json!({"family": "other comparisons"}));
+	// family 6
+	for len in 2..=3usize
+	{
+		for code in 0..CALL_KINDS.len().pow(len as u32)
+		{
+			let mut c = code;
+			let sig: Vec<usize> = (0..len).map(|_| { let k = c % CALL_KINDS.len(); c /= CALL_KINDS.len(); k }).collect();
+			for context in 0..CALL_CONTEXTS.len()
+			{
+				if quick && len == 3 && context != 0 && context != 4
+				{
+					continue;
+				}
+				jobs.push(json!({"family": "call shapes", "signature": sig, "context": context}));
+			}
+		}
+	}
+	d.bound("family 6: call shapes", json!({"parameter kinds": CALL_KINDS, "parameters": [2, 3], "argument forms": {"value": ["5", "k", "k + 1", "-k", "data[1]", "s.m", "twice(k)"], "array view": ["data", "[k, 2, 3]"], "struct view": ["s"], "pointer": ["&x"], "word": ["w"]}, "contexts": CALL_CONTEXTS, "quick": "three parameters only as typed initialiser and as statement"}));
 	// family 5
 	for position in 0..LITERAL_POSITIONS.len()
 	{
@@ -701,6 +816,19 @@ pub fn work(spec: &Value, w: &mut WorkerCtx)
 			{
 				w.result.validated += cells - 1;
 				w.result.sample(|| json!({"family": "comparisons", "type": t.name, "cells": cells, "first_row": expected.lines().next()}));
+			}
+		}
+		"call shapes" =>
+		{
+			let sig: Vec<usize> = spec["signature"].as_array().unwrap().iter().map(|x| x.as_u64().unwrap() as usize).collect();
+			let context = spec["context"].as_u64().unwrap() as usize;
+			let (text, expected) = call_shape_program(&sig, context);
+			let cells = expected.lines().count() as u64;
+			w.result.states += cells;
+			w.result.transitions += cells;
+			if expect_output(&text, &expected, 6, &format!("call shapes:{}", CALL_CONTEXTS[context]), json!({"family": "call shapes", "signature": sig, "context": context}), w)
+			{
+				w.result.validated += cells - 1;
 			}
 		}
 		"aggregate literals" =>
